@@ -821,6 +821,12 @@ where
             return Err(Error::ReadOnly);
         }
 
+        if buffer.is_empty() {
+            // Nothing to store: in particular, do not allocate a first cluster
+            // for an empty file (or fail for want of one on a full volume).
+            return Ok(());
+        }
+
         data.open_files[file_idx].dirty = true;
 
         if data.open_files[file_idx].entry.cluster.0 < fat::RESERVED_ENTRIES {
